@@ -171,3 +171,23 @@ package regprocessor
 //@   ensures @C12: result1 == nil ==> result0 != nil && len(result0.exclusionsFromOverride) == len(exclusionsFromOverride) && (forall i int :: 0 <= i && i < len(exclusionsFromOverride) ==> result0.exclusionsFromOverride[i].CIDR.IPNet == exclusionsFromOverride[i].CIDR.IPNet)
 //@   ensures @C12: result1 == nil ==> len(result0.minOverrideSubnets) == len(result0.minOverrideSubnetsCumulativeWeights) && len(result0.prefixOverrideSubnets) == len(result0.prefixOverrideSubnetsCumulativeWeights) && result0.enforceSubnetOverrides == enforceSubnetOverrides
 //@   checks structure
+
+// C12 "override subnets only for the transport they are configured for": the per-transport pools the override stage
+// draws from hold exactly the configured entries of that transport - an entry for any other transport name (another
+// transport, a typo, no name) belongs to neither pool and must not get a share of the weights.
+//@ func splitOverrideSubnets(overrideSubnets []Subnet) ([]Subnet, []Subnet)
+//@   ensures @C12: forall i int :: 0 <= i && i < len(result0) ==> result0[i].Transport == "Min_Transport"
+//@   ensures @C12: forall i int :: 0 <= i && i < len(result1) ==> result1[i].Transport == "Prefix_Transport"
+//@   assigns nothing
+//@ loop 1:
+//@   invariant 0 <= iter && iter <= len(overrideSubnets) && (cap(minOverrideSubnets) == 0 || fresh(minOverrideSubnets)) && (cap(prefixOverrideSubnets) == 0 || fresh(prefixOverrideSubnets))
+//@   invariant forall i int :: 0 <= i && i < len(minOverrideSubnets) ==> minOverrideSubnets[i].Transport == "Min_Transport"
+//@   invariant forall i int :: 0 <= i && i < len(prefixOverrideSubnets) ==> prefixOverrideSubnets[i].Transport == "Prefix_Transport"
+
+// C11: the address helper of the override stage is total - a response without an IPv4 address (a v6-only client) is
+// a nil pointer here and yields no address instead of a crash.
+//@ func uint32ToIPv4(ip *uint32) net.IP
+//@   ensures @C11: ip == nil ==> result == nil
+//@   ensures @C11: ip != nil ==> len(result) == 16
+//@   checks safety
+//@   inline
